@@ -1268,6 +1268,31 @@ def check_C06(ctx):
     for l, a, b in bad[:2]:
         ctx.rep.violation({'kind': 'memory-safety', 'run': 'valgrind', 'case': l[:600], 'implementation': a[:600], 'model': b[:200],
                            'explanation': 'valgrind memcheck stopped the run (uninitialised read / invalid access) or the outcome differs from the model'}, found_input='CRASH' in a)
+    # (e) layer A tie: the read extent of each scanner call (1 + highest index read, found by moving a PROT_NONE page
+    #     through the string; under-read flag) equals the read extent of the access model (LocalA / Local6531A / DomainA)
+    Hx = []
+    for ln in L:
+        f = ln.split()
+        if (len(f[1]) + len(f[2] if len(f) > 2 else '')) // 2 <= 160:
+            for fn in '8123':
+                Hx.append('H %s %s %s' % (fn, f[1], f[2] if len(f) > 2 else '-'))
+    for ln in D:
+        f = ln.split()
+        if (len(f[1]) + len(f[2] if len(f) > 2 else '')) // 2 <= 300:
+            Hx.append('H D %s %s' % (f[1], f[2] if len(f) > 2 else '-'))
+    if not ctx.thorough():
+        Hx = Hx[::3]
+    for lb, nm in ((ld, 'default'), (ctx.snap.lib(rfc20=True, f5322=True, uscore=True), 'rfc20+f5322+uscore')):
+        hl = Hx if nm == 'default' else [h for h in Hx if h[2] in '3D']
+        c_out, m_out = vlib.run_both(lb, ctx.snap, hl)
+        ctx.rep.add_cases('read-extent(%s)' % nm, hl, c_out, lambda ln, o: not o.startswith('0 '), note='output: 1+highest index read, under-read flag, return code; compared with the access model')
+        bad = [(l, a, b) for l, a, b in zip(hl, c_out, m_out) if a != b]
+        def beyond(a): return 'BEYOND' in a or 'CRASH' in a or (len(a.split()) == 3 and a.split()[1] == '1')
+        for l, a, b in sorted(bad, key=lambda t: (not beyond(t[1]), len(t[0])))[:3]:
+            ctx.rep.violation({'kind': 'read-extent', 'run': 'read-extent(%s)' % nm, 'case': l[:600], 'implementation': a[:200], 'model': b[:200], 'theorem': 'C06_*_access_model (LocalA.v, Local6531A.v, DomainA.v)',
+                               'explanation': 'the scanner reads outside [first byte, terminator]' if beyond(a) else
+                               'the highest index the scanner reads (or its return code) differs from the access model: the index-level model no longer describes the code, so its no-out-of-range-read theorems no longer cover it'},
+                              found_input=beyond(a))
     # (d) linear work: instruction counts (callgrind) on adversarial shapes at n, 2n, 4n
     import subprocess
     shapes = {'all-dots': lambda n: b'.' * n, 'all-at': lambda n: b'@' * n, 'long-local': lambda n: b'a' * n + b'@b.com', 'many-labels': lambda n: b'a@' + b'b.' * (n // 2) + b'c',
